@@ -53,6 +53,10 @@ C = {
     'symbolic execution of rustc MIR of Rule::validate over symbolic example states (is_mapping, matches) with solve() as an arbitrary boolean per example; z3 against the specification of validate(); native replay through rules realising the model',
     'All example lists with up to 3 positives and 3 negatives and all 2^(2k) example states: no panic, Ok(true) iff every example is right, Err(Validation) naming exactly the failing examples.',
     'solve() abstracted to a boolean per example (C02 covers its meaning); format!/Error::with modelled to keep which examples are mentioned'),
+ 'C15': ('other', '3/C15',
+    'structural comparison of the two MIR dumps (default / ignore_case); symbolic execution of into_identifier of both builds on s and "i"+s with z3 equality of the results per compatible path pair; tree equality through the two native bridges',
+    'into_identifier is the only function that differs; for all ASCII pattern strings within the byte bound the two builds produce the same identifier (kind, payload, flag); template trees identical.',
+    'regex validity / float value uninterpreted (same text, same answer); non-ASCII lower-casing outside the claim'),
  'C16': ('other', '3/C16',
     'symbolic execution of rustc MIR with a recording symbolic document; z3 decides feasibility of every recorded request for a key the rule does not write',
     'Every Document::find/Object::get reaching the user document on any feasible path of any template tree / optimiser output is for a written key; verdict terms mention only requested cells.',
